@@ -116,6 +116,8 @@ impl LoadBalancer {
       if !self.state.lock().peers.is_empty() {
         return Ok(());
       }
+      #[cfg(rzmq_verif)]
+      crate::verif::sched::point("lb.wait.checked");
       notify.notified().await;
     }
   }
@@ -135,6 +137,8 @@ impl LoadBalancer {
     self
       .deactivated
       .store(true, std::sync::atomic::Ordering::Release);
+    #[cfg(rzmq_verif)]
+    crate::verif::sched::point("lb.deactivate.stored");
     self.notify_waiters.notify_waiters();
   }
 }
